@@ -9,9 +9,9 @@ Local Open Scope N_scope.
 (* the +INFO block is "+INFO: " followed by exactly what the plain Gopher renderer
    produces for the same entry, byte for byte *)
 Theorem C15_info_is_menu_line :
-  forall admin srvname srvport moddate e,
+  forall keep admin srvname srvport moddate e,
     dict_get (lit "INFO") (e_ea e) = None ->
-    getblock admin srvname srvport moddate (lit "+INFO") e =
+    getblock keep admin srvname srvport moddate (lit "+INFO") e =
     option_map (fun line => lit "+INFO: " ++ line) (gopher0_line srvname srvport e).
 Proof. exact C15Facts.info_is_menu_line. Qed.
 Print Assumptions C15_info_is_menu_line.
@@ -20,12 +20,12 @@ Print Assumptions C15_info_is_menu_line.
    line), ADMIN, VIEWS (MIME type and size/1024) when the item has a type, then
    one block per extended attribute holding the lines of its text — nothing else *)
 Theorem C15_blocks :
-  forall admin srvname srvport moddate e p,
+  forall keep admin srvname srvport moddate e p,
     wf_entry admin srvname srvport moddate e ->
     gopher0_payload srvname srvport e = Some p -> no_lf p ->
     exists text,
-      gplus_info admin srvname srvport moddate e = Some (lit "+-2" ++ crlf ++ text) /\
-      parse_blocks text = Some (expected_blocks admin moddate p (menu_adjust e)).
+      gplus_info keep admin srvname srvport moddate e = Some (lit "+-2" ++ crlf ++ text) /\
+      parse_blocks text = Some (expected_blocks keep admin moddate p (menu_adjust e)).
 Proof. exact C15Facts.info_response_blocks. Qed.
 Print Assumptions C15_blocks.
 
@@ -36,32 +36,49 @@ Theorem C15_sidecar_read_completely :
 Proof. exact C15Facts.ea_lines_all. Qed.
 Print Assumptions C15_sidecar_read_completely.
 
-(* for printable content the block's lines are exactly the file's lines, right-stripped *)
+(* for printable content the block's lines are exactly the file's lines, right-stripped
+   (repaired getblock; the single exception, a sidecar that is one blank line, is
+   indistinguishable from an empty one after handleeaext: C15_single_blank_line_lost) *)
 Theorem C15_sidecar_lines :
   forall name content, N.of_nat (List.length content) <= EA_HINT ->
     let ls := map rstrip (lines_keepends (translate_newlines content)) in
-    Forall no_break ls -> last ls [SP] <> [] ->
-    ea_block_lines name (ea_value content) = (PLUSC :: name ++ [COLON]) :: map (fun x => SP :: x) ls.
+    Forall no_break ls -> ls <> [[]] ->
+    ea_block_lines true name (ea_value content) = (PLUSC :: name ++ [COLON]) :: map (fun x => SP :: x) ls.
 Proof. exact C15Facts.sidecar_block_lines. Qed.
 Print Assumptions C15_sidecar_lines.
 
-(* the pinned (and current) code drops a final blank line of a sidecar *)
+(* the pinned getblock (plain splitlines): only when the last line is not blank *)
+Theorem C15_sidecar_lines_pinned :
+  forall name content, N.of_nat (List.length content) <= EA_HINT ->
+    let ls := map rstrip (lines_keepends (translate_newlines content)) in
+    Forall no_break ls -> last ls [SP] <> [] ->
+    ea_block_lines false name (ea_value content) = (PLUSC :: name ++ [COLON]) :: map (fun x => SP :: x) ls.
+Proof. exact C15Facts.sidecar_block_lines_pinned. Qed.
+Print Assumptions C15_sidecar_lines_pinned.
+
+(* ... it drops a final blank line of a sidecar; the repaired one keeps it *)
 Theorem C15_sidecar_trailing_blank_refuted :
   exists content,
     let ls := map rstrip (lines_keepends (translate_newlines content)) in
-    Forall no_break ls /\ splitlines (ea_value content) <> ls.
+    Forall no_break ls /\ ea_body_lines false (ea_value content) <> ls /\
+    ea_body_lines true (ea_value content) = ls.
 Proof. exact C15Facts.sidecar_trailing_blank_refuted. Qed.
 Print Assumptions C15_sidecar_trailing_blank_refuted.
 
+Theorem C15_single_blank_line_lost :
+  ea_value [10] = [] /\ forall keep, ea_body_lines keep (ea_value [10]) = [].
+Proof. exact C15Facts.sidecar_single_blank_line_lost. Qed.
+Print Assumptions C15_single_blank_line_lost.
+
 (* used by C13: body lines of attribute blocks are never block headers *)
 Theorem gplus_lines_never_headers :
-  forall name v l, In l (tl (ea_block_lines name v)) ->
+  forall keep name v l, In l (tl (ea_block_lines keep name v)) ->
     exists x, l = SP :: x /\ no_break x /\ no_lf l /\ parse_header l = None.
 Proof. exact C15Facts.gplus_lines_never_headers. Qed.
 Print Assumptions gplus_lines_never_headers.
 
 Theorem C15_ea_block_is_its_lines :
-  forall name v, ea_block name v = unlines_crlf (ea_block_lines name v).
+  forall keep name v, ea_block keep name v = unlines_crlf (ea_block_lines keep name v).
 Proof. exact C15Facts.ea_block_unlines. Qed.
 Print Assumptions C15_ea_block_is_its_lines.
 
@@ -78,7 +95,7 @@ Print Assumptions C15_length_prefix.
 Example C15_example :
   wf_entry (lit "admin@example") (lit "gopher.example") 70%Z (fun _ => lit "<T>") example_entry /\
   option_map (fun t => parse_blocks (skipn 5 t))
-    (gplus_info (lit "admin@example") (lit "gopher.example") 70%Z (fun _ => lit "<T>") example_entry) =
+    (gplus_info true (lit "admin@example") (lit "gopher.example") 70%Z (fun _ => lit "<T>") example_entry) =
   Some (Some [mkBlock (lit "INFO") (lit "0a.txt" ++ [9] ++ lit "/d/a.txt" ++ [9] ++ lit "gopher.example" ++ [9] ++ lit "70" ++ [9] ++ lit "+") [];
               mkBlock (lit "ADMIN") [] [lit "Admin: admin@example"; lit "Mod-Date: <T>"];
               mkBlock (lit "VIEWS") [] [lit "text/plain: <4k>"];
